@@ -152,6 +152,8 @@ static int64_t run_getter(Arguments& a, uint32_t op, size_t pos, const std::stri
       case 11: *val = dbits(a.get<double>(key, kDefaultDouble)); return 0;
       case 12: *val = static_cast<int64_t>(a.get_multi<int16_t>(key).size()); return 0;
       case 13: *val = a.get<uint8_t>(key, Arguments::IntFormat::HEX); return 0;
+      case 14: *val = static_cast<int64_t>(a.get_multi<double>(key).size()); return 0;
+      case 15: *val = static_cast<int64_t>(a.get_multi<float>(key).size()); return 0;
       default: return -99;
     }
   }
